@@ -99,3 +99,46 @@ Theorem C14_data_series_calculate_idempotent :
   calculate O I ds = Ok st -> calculate O I st = Ok st.
 Proof. exact data_calculate_idempotent. Qed.
 Print Assumptions C14_data_series_calculate_idempotent.
+
+(* the same indicators: recalculate() - purge() then calculate() - reproduces exactly the store it
+   replaced (purge removes the readings and the helper series, nothing else; the recomputation
+   rebuilds both) *)
+Theorem C14_data_series_recalculate_reproduces :
+  forall (O : NumOps) (I : ind O) (key : string), data_node O I key -> data_kind O I key ->
+  forall (ds : list (cd (payload O))) (st : store O), Forall (fresh_data O I) ds ->
+  calculate O I ds = Ok st -> calculate O I (purge O I st) = Ok st.
+Proof. exact data_recalculate_reproduces. Qed.
+Print Assumptions C14_data_series_recalculate_reproduces.
+
+(* ... recomputing an index that already holds a reading, addressed from either end, leaves the
+   store - reading and helper entry - as it is *)
+Theorem C14_data_series_calculate_index_reproduces :
+  forall (O : NumOps) (I : ind O) (key : string), data_node O I key -> data_kind O I key ->
+  forall (ds : list (cd (payload O))) (st : store O) (i : Z), Forall (fresh_data O I) ds ->
+  calculate O I ds = Ok st -> (- zlen st <= i < zlen st)%Z -> calculate_index O I i None st = Ok st.
+Proof. exact data_calc_index_reproduces. Qed.
+Print Assumptions C14_data_series_calculate_index_reproduces.
+
+(* ... and every program of append / calculate / purge / recalculate / calculate_index (right
+   after a calculate(), so that the reading and its predecessors exist) ends in a state on which
+   calculate() gives exactly what one calculate() over all appended candles gives *)
+Theorem C14_data_series_programs_converge :
+  forall (O : NumOps) (I : ind O) (key : string), data_node O I key -> data_kind O I key ->
+  forall (st : store O) (ds : list (cd (payload O))), data_reach O I st ds ->
+  calculate O I st = calculate O I ds.
+Proof. exact data_programs_converge. Qed.
+Print Assumptions C14_data_series_programs_converge.
+
+(* the relation is inhabited by more than the empty program: append, purge, append, calculate,
+   recompute the newest index *)
+Example C14_data_reach_example :
+  forall (O : NumOps) (I : ind O) xs ys s1 s2 s3 s4,
+  Forall (fresh_data O I) xs -> Forall (fresh_data O I) ys ->
+  calculate O I ([] ++ xs) = Ok s1 -> calculate O I (purge O I s1 ++ ys) = Ok s2 ->
+  calculate O I s2 = Ok s3 -> (0 < zlen s3)%Z -> calculate_index O I (-1)%Z None s3 = Ok s4 ->
+  data_reach O I s4 (([] ++ xs) ++ ys).
+Proof.
+  intros O I xs ys s1 s2 s3 s4 Hx Hy H1 H2 H3 Hl H4.
+  eapply DR_calc_index with (st0 := s2) (st := s3) (i := (-1)%Z); [|exact H3|Lia.lia|exact H4].
+  eapply DR_append; [apply DR_purge; eapply DR_append; [apply DR_init|exact Hx|exact H1]|exact Hy|exact H2].
+Qed.
